@@ -396,6 +396,8 @@ def _cma_kernel(kind, to, frm, i):
     if kind == "assembly":
         md["args"] = [{"k": "cma", "acc": "write", "to": to, "from": frm},
                       {"k": "op", "acc": "read", "to": to, "from": frm}]
+        if i % 2:
+            md["args"].reverse()     # LMA operator first: inside the scope of C21_doc_cma_assembly
     elif kind == "apply":
         md["args"] = [_field(rng, to, wacc), _field(rng, frm, "read"),
                       {"k": "cma", "acc": "read", "to": to, "from": frm}]
